@@ -4,6 +4,7 @@ package main
 
 import (
 	"bufio"
+	"bytes"
 	"encoding/json"
 	"flag"
 	"fmt"
@@ -75,11 +76,28 @@ type senderSUT struct {
 	w   *Writer
 	snd api.SenderInterface
 	src *model.FeatureAddressType
+	// a notification that could not be retrieved by its counter at the moment it was written to the connection (the peer
+	// may refer to it as soon as it has it)
+	notRetrievable atomic.Int64
 }
 
 func newSenderSUT() *senderSUT {
 	w := &Writer{}
-	return &senderSUT{w: w, snd: spine.NewSender(w), src: sAddr("d:local", 1, 1)}
+	s := &senderSUT{w: w, src: sAddr("d:local", 1, 1)}
+	s.snd = spine.NewSender(w)
+	w.onWrite = func(raw []byte) {
+		if !bytes.Contains(raw, []byte(`"cmdClassifier":"notify"`)) {
+			return
+		}
+		var d model.Datagram
+		if json.Unmarshal(raw, &d) != nil || d.Datagram.Header.MsgCounter == nil {
+			return
+		}
+		if _, err := s.snd.DatagramForMsgCounter(*d.Datagram.Header.MsgCounter); err != nil {
+			s.notRetrievable.Add(1)
+		}
+	}
+	return s
 }
 
 func (s *senderSUT) wire() (ctrs []uint64, dgs []model.DatagramType) {
@@ -196,6 +214,9 @@ func (s *senderSUT) call(a Action) SenderLine {
 		l.Wire, _ = s.wire()
 	default:
 		panic("sender op " + l.Op)
+	}
+	if s.notRetrievable.Swap(0) > 0 {
+		l.Match = false // on the wire, but not retrievable by its counter
 	}
 	return l
 }
